@@ -609,6 +609,9 @@ example : TopkContract (topkStd (α := ℝ)) := topkStd_contract
 /-- the Boolean contract the driver re-checks on every call is exactly the hypothesis of the theorems -/
 example (lg : Bool) (vals : List ℝ) (kk : Nat) (idx : List Nat) :
     topkOk lg vals kk idx = true ↔ TopkSpec (ordRel lg) vals kk idx := topkOk_iff lg vals kk idx
+/-- … and the linear-time check the driver actually evaluates implies it -/
+example (lg : Bool) (vals : List ℝ) (kk : Nat) (idx : List Nat) (h : topkOkFast lg vals kk idx = true) :
+    TopkSpec (ordRel lg) vals kk idx := topkOkFast_sound lg vals kk idx h
 /-- the truncation contract of `voxel_cell` holds for the floor function on non-negative reals -/
 example : ∀ x : ℝ, 0 ≤ x → ((⌊x⌋ : Int) : ℝ) ≤ x ∧ x < ((⌊x⌋ : Int) : ℝ) + 1 :=
   fun x _ => ⟨Int.floor_le x, Int.lt_floor_add_one x⟩
